@@ -33,6 +33,10 @@ def parseOutcome : Char → Option Outcome
   | 'n' => some .nil
   | 'e' => some .err
   | 'p' => some .panic
+  -- a service that waits for the shutdown deadline first: the handler's loop does not look at
+  -- the deadline, so for the model these are a nil / an error return
+  | 'w' => some .nil
+  | 'W' => some .err
   | _ => none
 
 def listArg (s : String) : List String := if s = "-" then [] else s.splitOn ","
